@@ -1491,46 +1491,49 @@ func (c *Conn) ApiVersions() ([]ApiVersion, error) {
 		deadline = &c.wdeadline
 	}
 
-	id, err := c.doRequest(deadline, func(_ time.Time, id int32) error {
-		h := requestHeader{
-			ApiKey:        int16(apiVersions),
-			ApiVersion:    int16(v0),
-			CorrelationID: id,
-			ClientID:      c.clientID,
-		}
-		h.Size = (h.size() - 4)
-		h.writeTo(&c.wb)
-		return c.wbuf.Flush()
-	})
-	if err != nil {
-		return nil, err
-	}
-
-	_, size, lock, err := c.waitResponse(deadline, id)
-	if err != nil {
-		return nil, err
-	}
-	defer lock.Unlock()
-
 	var errorCode int16
-	if size, err = readInt16(&c.rbuf, size, &errorCode); err != nil {
+	var r []ApiVersion
+
+	err := c.do(deadline,
+		func(_ time.Time, id int32) error {
+			h := requestHeader{
+				ApiKey:        int16(apiVersions),
+				ApiVersion:    int16(v0),
+				CorrelationID: id,
+				ClientID:      c.clientID,
+			}
+			h.Size = (h.size() - 4)
+			h.writeTo(&c.wb)
+			return c.wbuf.Flush()
+		},
+		func(_ time.Time, size int) (err error) {
+			if size, err = readInt16(&c.rbuf, size, &errorCode); err != nil {
+				return err
+			}
+			var arrSize int32
+			if size, err = readInt32(&c.rbuf, size, &arrSize); err != nil {
+				return err
+			}
+			if arrSize < 0 {
+				return fmt.Errorf("invalid number of api versions in the response: %d", arrSize)
+			}
+			r = make([]ApiVersion, arrSize)
+			for i := 0; i < int(arrSize); i++ {
+				if size, err = readInt16(&c.rbuf, size, &r[i].ApiKey); err != nil {
+					return err
+				}
+				if size, err = readInt16(&c.rbuf, size, &r[i].MinVersion); err != nil {
+					return err
+				}
+				if size, err = readInt16(&c.rbuf, size, &r[i].MaxVersion); err != nil {
+					return err
+				}
+			}
+			return nil
+		},
+	)
+	if err != nil {
 		return nil, err
-	}
-	var arrSize int32
-	if size, err = readInt32(&c.rbuf, size, &arrSize); err != nil {
-		return nil, err
-	}
-	r := make([]ApiVersion, arrSize)
-	for i := 0; i < int(arrSize); i++ {
-		if size, err = readInt16(&c.rbuf, size, &r[i].ApiKey); err != nil {
-			return nil, err
-		}
-		if size, err = readInt16(&c.rbuf, size, &r[i].MinVersion); err != nil {
-			return nil, err
-		}
-		if size, err = readInt16(&c.rbuf, size, &r[i].MaxVersion); err != nil {
-			return nil, err
-		}
 	}
 
 	if errorCode != 0 {
